@@ -25,7 +25,7 @@ META = dict(
           'A case = (logic, shape, context, interpretation); non-trivial = distinct (logic, shape, context) and frame cases.'),
     assumptions=['REF-SEM semantics (vlib/ref/sem.py), incl. lattice reading of the FDE family',
                  'components are atoms A, B / monadic Fx: exactness for arbitrary components follows by compositionality of REF-SEM'],
-    min_events={'any': {'shapes_with_expansion': 2000, 'interpretations_checked': 50000, 'frame_cases': 2000, 'logics': 57}},
+    min_events={'any': {'shapes_with_expansion': 2000, 'interpretations_checked': 20000, 'frame_cases': 2000, 'logics': 57}},
     budget=dict(quick=500, thorough=1800),
     unit_timeout=dict(quick=400, thorough=1500),
 )
